@@ -292,8 +292,7 @@ func (r *AuthnRequest) Redirect(relayState string, sp *ServiceProvider) (*url.UR
 	compressedWriter, _ := flate.NewWriter(base64Writer, 9)
 	doc := etree.NewDocument()
 	doc.SetRoot(r.Element())
-	doc.WriteSettings = xmlWriteSettings
-	if _, err := doc.WriteTo(compressedWriter); err != nil {
+	if err := writeXML(doc, compressedWriter); err != nil {
 		return nil, err
 	}
 	if err := compressedWriter.Close(); err != nil {
@@ -660,8 +659,7 @@ func (sp *ServiceProvider) MakePostAuthenticationRequest(relayState string) ([]b
 func (r *AuthnRequest) Post(relayState string) []byte {
 	doc := etree.NewDocument()
 	doc.SetRoot(r.Element())
-	doc.WriteSettings = xmlWriteSettings
-	reqBuf, err := doc.WriteToBytes()
+	reqBuf, err := xmlToBytes(doc)
 	if err != nil {
 		panic(err)
 	}
@@ -1421,8 +1419,7 @@ func (r *LogoutRequest) Redirect(relayState string) *url.URL {
 	w2, _ := flate.NewWriter(w1, 9)
 	doc := etree.NewDocument()
 	doc.SetRoot(r.Element())
-	doc.WriteSettings = xmlWriteSettings
-	if _, err := doc.WriteTo(w2); err != nil {
+	if err := writeXML(doc, w2); err != nil {
 		panic(err)
 	}
 	if err := w2.Close(); err != nil {
@@ -1459,8 +1456,7 @@ func (sp *ServiceProvider) MakePostLogoutRequest(nameID, relayState string) ([]b
 func (r *LogoutRequest) Post(relayState string) []byte {
 	doc := etree.NewDocument()
 	doc.SetRoot(r.Element())
-	doc.WriteSettings = xmlWriteSettings
-	reqBuf, err := doc.WriteToBytes()
+	reqBuf, err := xmlToBytes(doc)
 	if err != nil {
 		panic(err)
 	}
@@ -1537,8 +1533,7 @@ func (r *LogoutResponse) Redirect(relayState string) *url.URL {
 	w2, _ := flate.NewWriter(w1, 9)
 	doc := etree.NewDocument()
 	doc.SetRoot(r.Element())
-	doc.WriteSettings = xmlWriteSettings
-	if _, err := doc.WriteTo(w2); err != nil {
+	if err := writeXML(doc, w2); err != nil {
 		panic(err)
 	}
 	if err := w2.Close(); err != nil {
@@ -1575,8 +1570,7 @@ func (sp *ServiceProvider) MakePostLogoutResponse(logoutRequestID, relayState st
 func (r *LogoutResponse) Post(relayState string) []byte {
 	doc := etree.NewDocument()
 	doc.SetRoot(r.Element())
-	doc.WriteSettings = xmlWriteSettings
-	reqBuf, err := doc.WriteToBytes()
+	reqBuf, err := xmlToBytes(doc)
 	if err != nil {
 		panic(err)
 	}
@@ -1846,12 +1840,11 @@ func elementToBytes(el *etree.Element) ([]byte, error) {
 
 	doc := etree.NewDocument()
 	doc.SetRoot(el.Copy())
-	doc.WriteSettings = xmlWriteSettings
 	for space, uri := range namespaces {
 		doc.Root().CreateAttr("xmlns:"+space, uri)
 	}
 
-	return doc.WriteToBytes()
+	return xmlToBytes(doc)
 }
 
 // unmarshalElement serializes el into v by serializing el and then parsing it with xml.Unmarshal.
